@@ -392,7 +392,7 @@ def stepWith {σ} (sem : Node → Sem σ) (s : St σ) (n : Node) : St σ :=
 def rangeV (lo hi : Int) : List V :=
   (List.range (hi - lo).toNat).map fun (i : Nat) => V.int (lo + (i : Int))
 
-/-- fuel for the nesting of loop bodies (the parser admits depth ≤ 5) -/
+/-- fuel for the nesting of loop bodies (the parser accepts depth ≤ 5) -/
 def loopFuel : Nat := 8
 
 def kmapS (f : MapFn) (k : Int) (x : List V) : List V := x.map fun p => V.pair p.fst (f.eval k p.snd)
@@ -574,13 +574,13 @@ def parEval (cfg : Cfg) (o : Orc) (job : Job) : List (Nat × List V) :=
 /-- The fragment of the composition theorem `parEval_perm_seqEval`. Excluded (order- or
     deployment-sensitive, see Props/C01.lean): `keyBy` (no repartitioning: equal keys are co-located
     only on a single replica), count windows, `zip`, keyed join (needs co-partitioning of two
-    streams), loops; and the stages whose composition proof is not finished (reductions, the keyed
+    streams), loops; and the stages whose composition proof is not finished (`reduce_assoc`, keyed reductions, the keyed
     two-phase aggregations `group_by_fold/reduce/sum/count` — their stage law is
     `keyed_twoPhase` —, joins, broadcast). -/
 def Kind.orderInsensitive : Kind → Bool
   | .iter _ | .par .. | .map .. | .filter .. | .fmap .. | .shuffle _ | .repl .. | .repart ..
   | .groupBy .. | .kmap .. | .kfilter .. | .kfold .. | .unkey _ | .dropKey _ | .fold .. | .foldA ..
-  | .merge .. | .route .. | .sink _ => true
+  | .reduce .. | .merge .. | .route .. | .sink _ => true
   | _ => false
 
 def orderInsensitive (job : Job) : Bool := job.all fun n => n.kind.orderInsensitive
